@@ -24,7 +24,7 @@ def isLocked : WP → Bool
 
 /-- holds thd_mutex -/
 def holdsT : WP → Bool
-  | .rcmdL | .updT | .updL | .resL => true
+  | .rcmdL | .skipL | .updT | .updL | .resL => true
   | _ => false
 
 def SPC.holdsT : SPC → Bool
@@ -37,8 +37,10 @@ def okTS : WP → TS → Bool
   | .rcmdL, t | .ready, t | .connecting, t | .connOk, t | .connFail, t | .updT, t => t == .rcmd || t == .canceled
   | .updL, t => t == .reading || t == .canceled
   | .reading, t => t == .reading
-  | .closing, t => t == .canceled
-  | _, t => t == .done || t == .failed
+  | .closing, t | .skipL, t => t == .canceled
+  | .resL, t | .flushed, t | .tearing, t => t == .done || t == .failed
+  -- torn, locked, signaled, done: the epilogue; a repaired worker that skipped the connect arrives there CANCELED
+  | _, t => t == .done || t == .failed || t == .canceled
 
 def frontier (s : St) : Nat := if s.dpc = .unlock then s.i + 1 else s.i
 
@@ -74,11 +76,11 @@ structure Inv (s : St) : Prop where
   t : TInv s
   f : FInv s
 
-theorem pc_init (v f n b t0 j) : pc (init v f n b t0) j = .idle := by
+theorem pc_init (v g f n b t0 j) : pc (init v g f n b t0) j = .idle := by
   simp [pc, init, List.getD_eq_getElem?_getD, List.getElem?_replicate]
   split <;> rfl
 
-theorem tsAt_init (v f n b t0 j) : tsAt (init v f n b t0) j = .new := by
+theorem tsAt_init (v g f n b t0 j) : tsAt (init v g f n b t0) j = .new := by
   simp [tsAt, init, List.getD_eq_getElem?_getD, List.getElem?_replicate]
   split <;> rfl
 
@@ -86,8 +88,8 @@ theorem countP_replicate_idle (p : WP → Bool) (hp : p .idle = false) (n : Nat)
     (List.replicate n WP.idle).countP p = 0 := by
   rw [List.countP_eq_zero]; intro a ha; rw [List.eq_of_mem_replicate ha, hp]; simp
 
-theorem minv_init (v : Variant) (f n : Nat) (b : Bool) (t0 : Nat) : MInv (init v f n b t0) := by
-  have hpc := pc_init v f n b t0
+theorem minv_init (v : Variant) (g : Bool) (f n : Nat) (b : Bool) (t0 : Nat) : MInv (init v g f n b t0) := by
+  have hpc := pc_init v g f n b t0
   refine { ownD := ?_, ownW := ?_, ownS1 := ?_, ownS2 := ?_, thdD := ?_, thdW := ?_, thdS1 := ?_, thdS2 := ?_,
            canc := ?_ }
   · simp only [init]; split <;> simp [DPC.holds]
@@ -100,12 +102,12 @@ theorem minv_init (v : Variant) (f n : Nat) (b : Bool) (t0 : Nat) : MInv (init v
   · simp [init]
   · simp [init]
 
-theorem tinv_init (v : Variant) (f n : Nat) (b : Bool) (t0 : Nat) : TInv (init v f n b t0) := by
+theorem tinv_init (v : Variant) (g : Bool) (f n : Nat) (b : Bool) (t0 : Nat) : TInv (init v g f n b t0) := by
   refine { len := by simp [init], ok := ?_ }
   intro j; rw [pc_init, tsAt_init]; rfl
 
-theorem finv_init (v : Variant) (f n : Nat) (b : Bool) (t0 : Nat) : FInv (init v f n b t0) := by
-  have hpc := pc_init v f n b t0
+theorem finv_init (v : Variant) (g : Bool) (f n : Nat) (b : Bool) (t0 : Nat) : FInv (init v g f n b t0) := by
+  have hpc := pc_init v g f n b t0
   refine { cnt := ?_, front1 := ?_, front2 := ?_, disp := ?_, drain := ?_, waitEq := ?_, dwaitPos := ?_,
            fin := ?_, park := ?_, dpark := ?_ }
   · simp [init, countP_replicate_idle counted rfl]
@@ -119,7 +121,7 @@ theorem finv_init (v : Variant) (f n : Nat) (b : Bool) (t0 : Nat) : FInv (init v
   · simp only [init]; split <;> simp
   · simp only [init]; split <;> simp
 
-theorem inv_init (v : Variant) (f n : Nat) (b : Bool) (t0 : Nat) : Inv (init v f n b t0) :=
-  ⟨minv_init v f n b t0, tinv_init v f n b t0, finv_init v f n b t0⟩
+theorem inv_init (v : Variant) (g : Bool) (f n : Nat) (b : Bool) (t0 : Nat) : Inv (init v g f n b t0) :=
+  ⟨minv_init v g f n b t0, tinv_init v g f n b t0, finv_init v g f n b t0⟩
 
 end PdshVerif.Dsh.Sig
